@@ -238,15 +238,16 @@ impl<'a> BTreeReader<'a> {
 
             match header.page_type() {
                 PageType::BTreeLeaf => {
-                    let leaf = LeafNode::from_page(page_data)?;
-                    let exhausted = leaf.cell_count() == 0;
-                    return Ok(Cursor {
+                    LeafNode::from_page(page_data)?;
+                    let mut cursor = Cursor {
                         storage: self.storage,
                         root_page: self.root_page,
                         current_page,
                         current_index: 0,
-                        exhausted,
-                    });
+                        exhausted: false,
+                    };
+                    cursor.skip_empty_forward()?;
+                    return Ok(cursor);
                 }
                 PageType::BTreeInterior => {
                     let interior = InteriorNode::from_page(page_data)?;
@@ -364,14 +365,15 @@ impl<'a> BTreeReader<'a> {
                         SearchResult::NotFound(idx) => idx,
                     };
 
-                    let exhausted = index >= leaf.cell_count() as usize;
-                    return Ok(Cursor {
+                    let mut cursor = Cursor {
                         storage: self.storage,
                         root_page: self.root_page,
                         current_page,
                         current_index: index,
-                        exhausted,
-                    });
+                        exhausted: false,
+                    };
+                    cursor.skip_empty_forward()?;
+                    return Ok(cursor);
                 }
                 PageType::BTreeInterior => {
                     let interior = InteriorNode::from_page(page_data)?;
@@ -1262,15 +1264,16 @@ impl<'a, S: Storage> BTree<'a, S> {
 
             match header.page_type() {
                 PageType::BTreeLeaf => {
-                    let leaf = LeafNode::from_page(page_data)?;
-                    let exhausted = leaf.cell_count() == 0;
-                    return Ok(Cursor {
+                    LeafNode::from_page(page_data)?;
+                    let mut cursor = Cursor {
                         storage: self.storage,
                         root_page: self.root_page,
                         current_page,
                         current_index: 0,
-                        exhausted,
-                    });
+                        exhausted: false,
+                    };
+                    cursor.skip_empty_forward()?;
+                    return Ok(cursor);
                 }
                 PageType::BTreeInterior => {
                     let interior = InteriorNode::from_page(page_data)?;
@@ -1304,14 +1307,15 @@ impl<'a, S: Storage> BTree<'a, S> {
                         SearchResult::NotFound(idx) => idx,
                     };
 
-                    let exhausted = index >= leaf.cell_count() as usize;
-                    return Ok(Cursor {
+                    let mut cursor = Cursor {
                         storage: self.storage,
                         root_page: self.root_page,
                         current_page,
                         current_index: index,
-                        exhausted,
-                    });
+                        exhausted: false,
+                    };
+                    cursor.skip_empty_forward()?;
+                    return Ok(cursor);
                 }
                 PageType::BTreeInterior => {
                     let interior = InteriorNode::from_page(page_data)?;
@@ -1424,14 +1428,46 @@ impl<'a, S: Storage + ?Sized> Cursor<'a, S> {
         self.current_page = next_page;
         self.current_index = 0;
 
-        let next_page_data = self.storage.page(self.current_page)?;
-        let next_leaf = LeafNode::from_page(next_page_data)?;
-        if next_leaf.cell_count() == 0 {
-            self.exhausted = true;
-            return Ok(false);
-        }
+        self.skip_empty_forward()?;
 
-        Ok(true)
+        Ok(!self.exhausted)
+    }
+
+    /// Positions the cursor on the first entry at or after (current_page, current_index),
+    /// following the leaf chain when the index is past the end of the current leaf.
+    /// Deletes never unlink leaves, so leaves emptied by deletes are legitimate and must be
+    /// stepped over; a seek key greater than every key of its leaf continues in the next leaf.
+    fn skip_empty_forward(&mut self) -> Result<()> {
+        let page_count = self.storage.page_count();
+        let mut hops = 0u32;
+
+        loop {
+            let page_data = self.storage.page(self.current_page)?;
+            let leaf = LeafNode::from_page(page_data)?;
+
+            if self.current_index < leaf.cell_count() as usize {
+                return Ok(());
+            }
+
+            let next_page = leaf.next_leaf();
+            if next_page == 0 {
+                self.exhausted = true;
+                return Ok(());
+            }
+
+            hops += 1;
+            if next_page >= page_count || hops > page_count {
+                bail!(
+                    "corrupt next_leaf pointer: page {} has next_leaf={} but page_count={}",
+                    self.current_page,
+                    next_page,
+                    page_count
+                );
+            }
+
+            self.current_page = next_page;
+            self.current_index = 0;
+        }
     }
 
     pub fn prev(&mut self) -> Result<bool> {
